@@ -84,15 +84,18 @@ Min(a, b) == IF a < b THEN a ELSE b
 \* Result of readNextLine(position) together with the buffer start it leaves:
 \* [bs, lineIdx, line] where line is the index of the returned line, or 0 if
 \* the returned string is not exactly one stored line (a fragment).
-ReadNextLine(pos) ==
-    LET rel0   == pos - bufferStart
-        reinit == bufNil \/ (rel0 < MaxEntry /\ bufferStart # 0)                \* :281
+\* (parameterised by the buffer state so that AlignmentClasses below can walk
+\* a whole backward read as a function of the file alone)
+ReadNextLineIn(pos, bn, b0) ==
+    LET rel0   == pos - b0
+        reinit == bn \/ (rel0 < MaxEntry /\ b0 # 0)                             \* :281
         bs     == IF reinit THEN (IF pos > BufSize THEN pos - BufSize ELSE 0)   \* initBuffer:308-311
-                  ELSE bufferStart
+                  ELSE b0
         \* the buffer holds bytes bs .. Min(bs + BufSize, Size) - 1
         nl     == LastNLIn(bs, pos)                                             \* :292-297
         lineIdx == IF nl = -1 THEN bs ELSE nl + 1                               \* :291, :300
     IN [bs |-> bs, lineIdx |-> lineIdx, line |-> WholeLine(lineIdx, pos)]
+ReadNextLine(pos) == ReadNextLineIn(pos, bufNil, bufferStart)
 
 \* ---------------------------------------------------- readProbeLine:331-377
 \* [ioerr, lineIdx, lineEnd (exclusive end of the returned string),
@@ -221,6 +224,95 @@ Next == SeekStart \/ ReadNext \/ (\E t \in Targets : SeekTSBegin(t)) \/ Probe
 Opened == /\ position = 0 /\ bufferStart = 0 /\ bufNil = TRUE
           /\ pc = "idle" /\ seeked = FALSE /\ out = NoReply
           /\ sTarget = 0 /\ sStart = 0 /\ sEnd = 0 /\ sProbe = 0 /\ sLast = -1 /\ sDepth = 0
+
+\* ------------------------------------------------------ alignment classes
+(***************************************************************************)
+(* "... wherever internal read buffers fall": the ways in which a buffer   *)
+(* start or a probe-window edge can lie relative to the line being         *)
+(* extracted, in scale-free terms (every component is defined through      *)
+(* MaxEntry / BufSize, so a class of the scaled universe names a class of  *)
+(* real files).  QLogFileAlgMC emits, per scaled file, the classes its     *)
+(* reads and probes fall into; the union over the exhaustive universe is   *)
+(* the list the orchestrator must realise with real-size files (it solves  *)
+(* for the padding) and find again, class by class, in the positions the   *)
+(* real code logged.                                                       *)
+(*                                                                         *)
+(* Class of one ReadNext at position pos with buffer state (bn, b0):       *)
+(*   kind  "nil" buffer absent (first read after a seek) | "reinit" | "keep"*)
+(*   trig  reinit only: how far pos was from the old buffer start:         *)
+(*         "0" on it, "1", "mid", "top" = MaxEntry-1                       *)
+(*   rel   keep only: pos - bufferStart is "=" MaxEntry (the least that    *)
+(*         avoids a re-init) or ">"                                        *)
+(*   len   returned line: "max" = MaxEntry-1, "sub" = MaxEntry-2, "small"  *)
+(*   lf    where the newline BEFORE the line lies in the buffer: index     *)
+(*         "0", "1", "2+"; with the buffer at the file start: "bof" (the   *)
+(*         line is the first of the file) or "in"                          *)
+(*   on    what the buffer's first byte is: "zero" (file start), "lf", the *)
+(*         "last" byte of a line, the "first" byte, or "inside" one        *)
+(***************************************************************************)
+IsLF(o) == o >= 0 /\ NLBelow(o + 1) > NLBelow(o)
+LenClass(l) == IF l = MaxEntry - 1 THEN "max" ELSE IF l = MaxEntry - 2 THEN "sub" ELSE "small"
+OffClass(d) == IF d = 0 THEN "0" ELSE IF d = 1 THEN "1" ELSE "2+"
+OnClass(b) == IF b = 0 THEN "zero" ELSE IF IsLF(b) THEN "lf" ELSE IF IsLF(b + 1) THEN "last"
+              ELSE IF IsLF(b - 1) THEN "first" ELSE "inside"
+
+ReadClass(pos, bn, b0) ==
+    LET r    == ReadNextLineIn(pos, bn, b0)
+        kind == IF bn THEN "nil" ELSE IF pos - b0 < MaxEntry /\ b0 # 0 THEN "reinit" ELSE "keep"
+        t0   == pos - b0
+    IN [kind |-> kind,
+        trig |-> IF kind # "reinit" THEN "-"
+                 ELSE IF t0 = 0 THEN "0" ELSE IF t0 = 1 THEN "1" ELSE IF t0 = MaxEntry - 1 THEN "top" ELSE "mid",
+        rel  |-> IF kind # "keep" \/ r.bs = 0 THEN "-" ELSE IF pos - r.bs = MaxEntry THEN "=" ELSE ">",
+        len  |-> LenClass(pos - r.lineIdx),
+        lf   |-> IF r.bs = 0 THEN (IF r.lineIdx = 0 THEN "bof" ELSE "in") ELSE OffClass(r.lineIdx - 1 - r.bs),
+        on   |-> OnClass(r.bs)]
+
+\* The classes of the reads from position pos down to the file start.
+RECURSIVE ReadWalk(_, _, _)
+ReadWalk(pos, bn, b0) ==
+    IF pos = 0 THEN {}
+    ELSE LET r == ReadNextLineIn(pos, bn, b0)
+         IN {ReadClass(pos, bn, b0)} \cup ReadWalk(IF r.lineIdx = 0 THEN 0 ELSE r.lineIdx - 1, FALSE, r.bs)
+
+\* Backward reads begin at the last newline (SeekStart) or at the newline of
+\* any line (after seekTS), always with the buffer absent.
+ReadClasses == UNION {ReadWalk(ends[i], TRUE, 0) : i \in 1..NLines}
+
+(***************************************************************************)
+(* Class of one readProbeLine(p):                                          *)
+(*   z     the window starts at the file start                             *)
+(*   clip  the window is cut short by the end of the file                  *)
+(*   len   the probe line ("eof" for the empty string found at p = Size)   *)
+(*   dl    distance of the newline before the line from the window's first *)
+(*         byte: "0", "1", "2+", or "bof" (no newline: first line)         *)
+(*   dr    distance of the line's own newline from the window's last byte  *)
+(***************************************************************************)
+ProbeClass(p) ==
+    LET r       == ReadProbeLine(p)
+        seekPos == IF p > MaxEntry THEN p - MaxEntry ELSE 0
+        winEnd  == Min(seekPos + 2 * MaxEntry, Size)
+    IN [z    |-> seekPos = 0,
+        clip |-> winEnd < seekPos + 2 * MaxEntry,
+        len  |-> IF r.lineIdx = Size THEN "eof" ELSE LenClass(r.lineEnd - r.lineIdx),
+        dl   |-> IF r.lineIdx = 0 THEN "bof" ELSE OffClass(r.lineIdx - 1 - seekPos),
+        dr   |-> IF r.lineIdx = Size THEN "-" ELSE OffClass(winEnd - 1 - r.lineEnd)]
+
+\* The probes of seekTS(t), by the same decisions as Probe (the premise of
+\* the statement holds in the enumerated universe, so every probe line is a
+\* whole line; the walk stops where Probe returns).
+RECURSIVE ProbeWalk(_, _, _, _, _, _)
+ProbeWalk(t, start, end, p, last, depth) ==
+    LET r  == ReadProbeLine(p)
+        ts == TimestampOf(r.lineIdx, r.lineEnd)
+    IN {ProbeClass(p)} \cup
+       (IF r.ioerr \/ r.lineIdx = last \/ r.lineIdx = Size \/ ts = 0 \/ ts = t \/ depth + 1 >= DepthLimit
+          THEN {}
+          ELSE LET s2 == IF ts > t THEN start ELSE r.lineEndIdx
+                   e2 == IF ts > t THEN r.lineIdx ELSE end
+               IN ProbeWalk(t, s2, e2, s2 + (e2 - s2) \div 2, r.lineIdx, depth + 1))
+
+ProbeClasses == IF Size = 0 THEN {} ELSE UNION {ProbeWalk(t, 0, Size, Size \div 2, -1, 0) : t \in Targets}
 
 \* ------------------------------------------------- refinement of QLogFile
 (***************************************************************************)
